@@ -194,6 +194,15 @@ def tie(ctx):
                 continue
             n = r.choice([3, 3, 4, 5])
             groups.append((gd, [(ma, r.choice(list(gene.alleles[ma].minors)), []) for ma in (r.choice(cands) for _ in range(n))], None))
+    # directed: partial (fusion-derived) alleles whose background sub-allele has a dotted identifier (`13#4.021`): the name
+    # shown is the part before `#`
+    for gd in pool:
+        gene, _ = instances.load_gene(gd)
+        dotted = sorted(m for m in gene.alleles if "#" in m and "." in m.split("#", 1)[1])
+        for ma in (r.sample(dotted, min(len(dotted), 2 if quick else 10))):
+            others = [m for m in gene.alleles if m != gene.deletion_allele()]
+            cps = [(ma, r.choice(list(gene.alleles[ma].minors)), [])] + [(o, r.choice(list(gene.alleles[o].minors)), []) for o in r.sample(others, r.choice([0, 1, 2]))]
+            groups.append((gd, cps, None))
     nbase = 90 if quick else 1500
     for i in range(nbase):
         gd = pool[i % len(pool)]
